@@ -9,7 +9,10 @@ pub fn check(r: &RunResult, rep: &mut Report) {
 	if r.panic.is_some() {
 		return;
 	}
-	let fault_free = w.plan.faults.iter().all(|f| f.site != "net") && w.fault_fired.keys().all(|k| !k.starts_with("net.") && !k.starts_with("fs."));
+	let fault_free = w.plan.faults.iter().all(|f| f.site != "net")
+		&& w.fault_fired
+			.keys()
+			.all(|k| !k.starts_with("net.") && !k.starts_with("fs."));
 	for ca in w.cas.iter() {
 		for p in ca.posts.iter() {
 			rep.nontrivial = true;
@@ -34,16 +37,39 @@ pub fn check(r: &RunResult, rep: &mut Report) {
 			for prob in p.problems.iter() {
 				let kind = prob.split(':').next().unwrap_or("problem");
 				let cause = match kind {
-					"nonce" => prob.split(':').nth(1).unwrap_or("").split(' ').next().unwrap_or("").trim_matches(|c| c == '{' || c == ' ').to_string(),
+					"nonce" => prob
+						.split(':')
+						.nth(1)
+						.unwrap_or("")
+						.split(' ')
+						.next()
+						.unwrap_or("")
+						.trim_matches(|c| c == '{' || c == ' ')
+						.to_string(),
 					_ => String::new(),
 				};
-				rep.add(Violation::new("C04", kind, &cause, &p.class, format!("{} (url {}, alg {}, key {})", prob, p.url, p.alg, p.key_kind)));
+				rep.add(Violation::new(
+					"C04",
+					kind,
+					&cause,
+					&p.class,
+					format!(
+						"{} (url {}, alg {}, key {})",
+						prob, p.url, p.alg, p.key_kind
+					),
+				));
 			}
 		}
 		for kc in ca.key_changes.iter() {
 			rep.probe("c04.key_changes", 1);
 			if fault_free && !kc.ok {
-				rep.add(Violation::new("C04", "key_change_refused", "", "keyChange", kc.why.clone()));
+				rep.add(Violation::new(
+					"C04",
+					"key_change_refused",
+					"",
+					"keyChange",
+					kc.why.clone(),
+				));
 			}
 		}
 		for na in ca.new_accounts.iter() {
